@@ -182,6 +182,14 @@ def handle (op : String) (j : Json) : Except String Json := do
       | [c, s, e, f] => pure ({ c := c, s := s, e := e, fwd := f == 1 } : C10.Iv)      -- strand: 1 = '+', 0 = '-' or '.'
       | _ => throw "interval expected")
     let stranded := kind == "under_stranded"
+    -- get_windows keywords: "wflank" (flank=k) or "wsize" (window_size=w); absent for the other kinds
+    let wflank : Option Nat := match j.getObjVal? "wflank" with
+      | .ok v => v.getNat?.toOption
+      | .error _ => none
+    let wsize : Nat := match j.getObjVal? "wsize" with
+      | .ok v => (v.getNat?.toOption).getD 0
+      | .error _ => 0
+    let winJ (ws : List C10.IvZ) : Json := Json.arr (ws.map (fun w => Json.arr #[nat w.c, int w.s, int w.e])).toArray
     let edges : List Int := (List.range (bins + 1)).map (fun (i : Nat) => Int.ofNat i)
     let toI (l : List Nat) : List Int := l.map (fun (n : Nat) => Int.ofNat n)
     let histJ (h : List Nat) : Json := Json.mkObj [("hist", natList h), ("edges", intList edges)]
@@ -191,8 +199,10 @@ def handle (op : String) (j : Json) : Except String Json := do
       | "mask_sum" => (match streamMask sizes chunks with | some mk => nat mk.sum | none => errJ "genome")
       | "under" | "under_stranded" => (match streamValues stranded sizes chunks [peaks] with | some rows => natListList rows | none => errJ "genome")
       | "pileup_hist" => (match streamPileupHist edges sizes chunks with | .ok (h, _) => histJ h | .error e => serrJ e)
+      | "windows" => (match streamWindows sizes wflank wsize chunks with | some ws => winJ ws | none => errJ "genome")
       | _ => errJ "kind"
     let s := match kind, C10.pileupGlobal sizes ivs, C10.maskGlobal sizes ivs with
+      | "windows", _, _ => winJ (ivs.map (fun iv => C10.windowG sizes (C10.flanks wflank wsize) iv.c iv.s true))
       | "pileup_data", some d, _ => natListList (C10.toDict sizes d)
       | "pileup_sum", some d, _ => nat d.sum
       | "mask_sum", _, some mk => nat mk.sum
